@@ -16,7 +16,7 @@ RULE = ('m-of-n with n in 2..4 (thorough ..5), every m, witness type legacy / p2
         'file. One wallet funds the common address (offline provider) and creates a spend; then a drawn sequence of '
         '1..n+1 hand-offs (signer, medium in {object, dict, raw hex}), repeats allowed, with a broadcast attempt '
         'after each. [per-wallet anti_fee_sniping, explicit locktimes, imported == exported transaction, bulk get_keys(n) + new_key issuance on every cosigner wallet] Non-trivial = m<n with >=2 hand-offs, or two different media, or a signer order different from '
-        'key order; distinct by (m, n, type, permutations, ceremony).')
+        'key order; distinct by (m, n, type, permutations, ceremony). [post_edit: the completed spend is changed and re-signed by one cosigner, then sent; verified flag and broadcast judged by the interpreter]')
 ASSUMPTIONS = ['SQLite only; offline provider of bitcoinlib_test', 'all cosigner wallets have run utxos_update() before the ceremony', 'default sort_keys=True (BIP67 ordering)',
                'BIP45 (legacy) paths carry a cosigner index: all wallets are asked for the same cosigner index']
 SHARDS = {'quick': 16, 'thorough': 16}
@@ -299,6 +299,8 @@ def _run_case_inner(ctx, case):
                 if only is None or k_ == only % len(signed):
                     s_.add(j)
             t = t2
+            if case.get('post_edit') and m >= 2 and min(len(s_) for s_ in signed) >= m and 'post_edit' not in flags:
+                _post_edit(ctx, case, wj, j, t, m, spk, amount, flags)
             _judge(ctx, case, t, signed, m, spk, amount, 'handoff %d (%s by %d)' % (step, medium, j), flags, kf=kf)
             if step >= 1 and m < n:
                 flags.add('multi_handoff')
@@ -316,6 +318,52 @@ def _run_case_inner(ctx, case):
 def _foreign():
     from ref import address as raddr
     return raddr.addr_p2pkh(bytes(range(0x80, 0x94)), NET)
+
+
+def _post_edit(ctx, case, wj, j, t, m, spk, amount, flags):
+    """The completely signed (and verified) spend is changed afterwards by ONE cosigner - the amount paid is lowered,
+    i.e. the fee raised - and signed again by that cosigner only, then sent without anybody asking verify() in
+    between. The other cosigners' signatures belong to the old version: the changed spend has one valid signer, it
+    must not be flagged verified and must not be broadcast. (Done on a copy imported into that cosigner's wallet.)"""
+    from ref import wire, interp
+    mode = case['post_edit']
+    try:
+        tb = wj.transaction_import(t.as_dict())
+        if not tb.verified:
+            ctx.refusal('post_edit.copy_not_verified')
+            return
+        tb.outputs[0].value -= 777
+        if mode == 'sign_replace':
+            tb.sign(replace_signatures=True)
+        elif mode == 'sign_and_update':
+            tb.sign_and_update()
+        else:
+            tb.sign()
+        flagged = bool(tb.verified)
+        raw = tb.raw()
+    except Exception as e:
+        ctx.refusal('post_edit.%s.%s' % (mode, type(e).__name__))
+        return
+    flags.add('post_edit')
+    try:
+        tx = wire.Tx.parse(raw)
+        ref_ok = len(tx.vin) == len(amount) and all(interp.verify_input(tx, k_, spk, amount[k_])[0]
+                                                    for k_ in range(len(amount)))
+    except Exception:
+        ref_ok = False
+    try:
+        tb.send(broadcast=True)
+        pushed = bool(tb.pushed)
+    except Exception:
+        pushed = False
+    if ref_ok:
+        ctx.klass('post_edit.still_valid')
+        return
+    if flagged or pushed:
+        ctx.disc('post_edit.%s:%s' % ('pushed' if pushed else 'verified_flag', mode),
+                 'cosigner %d lowered the paid amount of the completely signed spend and signed again (%s): the other '
+                 'cosigners\' signatures are for the old version and the consensus interpreter rejects the spend, but '
+                 'verified=%r and send() pushed=%r' % (j, mode, flagged, pushed), case)
 
 
 def _judge(ctx, case, t, signed, m, spk, amount, where, flags, kf=None):
@@ -416,6 +464,7 @@ def _strategy(ctx):
                 'afs': afs, 'locktime': locktime, 'perms': perms,
                 'two_inputs': draw(st.sampled_from([False, False, True])),
                 'resign_nonces': draw(st.sampled_from([False, False, True])),
+                'post_edit': draw(st.sampled_from([None, 'sign_replace', 'sign_and_update', 'sign'])),
                 'bulk': draw(st.sampled_from([0, 0, 2, 3])), 'bulk_change': draw(st.sampled_from([0, 0, 1])), 'creator': draw(st.integers(0, n - 1)), 'handoffs': handoffs,
                 'rng': draw(st.integers(0, 2 ** 31))}
     return cases()
